@@ -13,7 +13,7 @@ CLAIMS = {
           "the label-creating first pass; switch shapes; PoolRead::read tag -> layout -> variant -> slot count, as_X destructuring, method-handle kind "
           "table, loadable/constant-value kind sets; no table filled by the reader is dropped (write-only accumulator) and every visitor method has a "
           "call site; attribute dispatch per location; the nine access-flag conversion tables (field <-> JVMS mask); verification-type, frame-type, "
-          "element-value, target-type, type-path tag tables and 4-byte alignment. (R01.13) every counted loop of the reader (`for _ in 0..count`) delivers one element per iteration: no continue/break, every push unconditional; (R01.11) switch padding evaluated at stream positions 0..7. Premises evaluated with it: C17 R17.4 (the tree builder stores each group where the replay reads it) and C02 R02.1 attr-source.",
+          "element-value, target-type, type-path tag tables and 4-byte alignment. (R01.13) every counted loop of the reader (`for _ in 0..count`) delivers one element per iteration: no continue/break, every push unconditional; (R01.11) switch padding evaluated at stream positions 0..7. Premises evaluated with it: C17 R17.4 (the tree builder stores each group where the replay reads it) and C02 R02.1 attr-source. (R01.5 now an accessor x entry-kind table evaluated with the pool module inlined; R01.14) a lazily resolved pool value depends on every payload field of its entry on every successful path (no memo keyed by part of the entry); (R01.15) the i16/i32 branch-target helpers evaluated at boundary probes over the whole in-range domain; premise C17 R17.7: the tree builder never declines a class, field or method.",
   "note": "Not decided: that labels denote the right instruction for every byte stream, frame attachment, modified-UTF-8 decoding, bootstrap "
           "argument values, i.e. read_class(bytes) == ground truth as a value-level law. 2 recorded findings (parameter annotations skipped). "
           "Trusted: rustc HIR/typeck/const-eval; spec/jvms_tables.json transcribed from JVMS ch. 4/6.",
